@@ -52,6 +52,7 @@ def run_cases(cases, W, R, ST, pinned=False):
     from fparser.common.readfortran import FortranStringReader
     from fparser.common import splitline
     from fparser.two.symbol_table import SYMBOL_TABLES
+    from fparser.two.Fortran2008.block_stmt_r808 import Block_Stmt
     out = []
     cur = None
     memo = [c.cell_contents for c in splitline.string_replace_map.__closure__ if isinstance(c.cell_contents, dict)]
@@ -62,6 +63,7 @@ def run_cases(cases, W, R, ST, pinned=False):
         for d in memo:
             d.clear()
         SYMBOL_TABLES.clear()
+        Block_Stmt.counter = 0      # synthetic BLOCK scope names are numbered by a process-wide counter
         try:
             if kind == "cls":
                 cls = getattr(Fortran2008, name, None) if std == "f2008" else None
@@ -200,8 +202,8 @@ def main():
                         uns += 1
                     if bad <= 8:
                         print("MISMATCH[%s] %s" % (m, json.dumps(c)[:300]))
-                        print("   native: %s" % json.dumps(rn)[:400])
-                        print("   shadow: %s" % json.dumps(rs)[:400])
+                        print("   native: %s" % json.dumps(rn)[:4000])
+                        print("   shadow: %s" % json.dumps(rs)[:4000])
         print("selftest mode=%s cases=%d mismatches=%d (unsupported=%d)" % (m, n, bad, uns))
         if bad:
             status = 2
